@@ -120,6 +120,11 @@ class FnSpec:
     def requires(self, cx, a):
         return []
 
+    def hints(self, cx, a):
+        """[(name, z3 Bool)] intermediate lemmas about the entry state: each is an obligation of its own
+        (proved from requires + earlier hints) and is then available as a fact. Never an unproved assumption."""
+        return []
+
     def ensures(self, cx, a, res):
         """[(name, z3 Bool, clause)] on normal exits."""
         return []
@@ -278,6 +283,10 @@ class FunctionRun:
             try:
                 a = spec.setup(cx)
                 for item in spec.requires(cx, a):
+                    cx.assume(item[1])
+                for item in spec.hints(cx, a):
+                    if not dec:  # proved once, on the first path
+                        cx.oblige(f"hint:{item[0]}", "hint", item[1], clause="intermediate lemma (proof hint)")
                     cx.assume(item[1])
                 cls = spec.qual.rsplit(".", 1)[0] if "." in spec.qual and "<locals>" not in spec.qual else None
                 fr = Frame(self.modinfo, spec.qual, Env(None), spec=spec, cls=cls)
